@@ -1,11 +1,13 @@
 #!/usr/bin/env python3
 """Evaluate every completed seed under /tmp/wt/<ID>/_seed/<V>; keep confirmed ones under /verif/seeded/."""
 import json, os, shutil, subprocess, sys
+BASE = os.environ.get('SEED_BASE', '/tmp/wt')
+SUFFIX = os.environ.get('SEED_SUFFIX', '')
 ids = sys.argv[1:]
 rows = []
 for pid in ids:
-    for v in sorted(os.listdir(f'/tmp/wt/{pid}/_seed')) if os.path.isdir(f'/tmp/wt/{pid}/_seed') else []:
-        d = f'/tmp/wt/{pid}/_seed/{v}'
+    for v in sorted(os.listdir(f'{BASE}/{pid}/_seed')) if os.path.isdir(f'{BASE}/{pid}/_seed') else []:
+        d = f'{BASE}/{pid}/_seed/{v}'
         if not os.path.exists(d + '/meta.json') or not os.path.exists(d + '/patch.diff'):
             continue
         r = json.loads(subprocess.run(['python3', '/verif/tools/seed_eval.py', d], capture_output=True, text=True).stdout)
@@ -13,7 +15,7 @@ for pid in ids:
         chk = r.get('checks', {}).get(pid, {})
         rows.append((pid, v, ok, chk.get('exit'), [l for l in chk.get('lines', []) if l.startswith('VIOLATION')][:2]))
         if ok:
-            dst = f'/verif/seeded/{pid}-{v}'
+            dst = f'/verif/seeded/{pid}-{v}{SUFFIX}'
             os.makedirs(dst, exist_ok=True)
             for f in os.listdir(d):
                 shutil.copy(os.path.join(d, f), dst)
